@@ -143,9 +143,22 @@ func newBundle(locale string, file po.File) (*bundle, error) {
 		if id == 0 {
 			return nil, fmt.Errorf("no id found in message: %#v", msg)
 		}
+		if !translated(msg.Str) {
+			continue // as in gettext, an empty msgstr means "not translated": use the source text
+		}
 		msgs[id] = newMessage(id, varName, msg.Str)
 	}
 	return &bundle{msgs, locale, pluralize}, nil
+}
+
+// translated reports whether any of the given msgstr is non-empty.
+func translated(msgstrs []string) bool {
+	for _, msgstr := range msgstrs {
+		if msgstr != "" {
+			return true
+		}
+	}
+	return false
 }
 
 func (b *bundle) Message(id uint64) *soymsg.Message {
